@@ -97,6 +97,24 @@ def check(ctx):
             ctx.fail('C09.1', ctx.site(b), 'signing does not sign digest(subject(self)) exactly once: messages %s' % [fmt(m[1]) for m in msgs], key='C09.1|sign|' + path)
             continue
         ctx.ok('C09.1', ctx.site(b, inner[0][0]), 'sign(key, digest(subject(self)))', sample=fmt(inner[0][1]))
+        # the caller's signing options reach EVERY signature made here (a scheme that requires options - SSH namespace / hash - can
+        # otherwise sign the subject but not the metadata wrapper, or the reverse)
+        if b.arg_count >= 3 and 'SigningOptions' in b.local_ty(3):
+            def opt_of(bi_):
+                c_ = b.callee(bi_)
+                a_ = tb.call_args(bi_)
+                if c_ is None or c_.name != 'sign_with_options' or len(a_) < 3:
+                    return None
+                x = strip_sites(detry(a_[2]))
+                while x[0] == 'call' and call_name(x) in ('clone', 'as_ref', 'cloned') and len(x[2]) == 1:
+                    x = strip_sites(detry(x[2][0]))
+                return x
+            bad_opts = [bi_ for bi_, _m in msgs if opt_of(bi_) != ('param', 3)]
+            if bad_opts:
+                ctx.fail('C09.1', ctx.site(b, bad_opts[0]), 'a signature in %s is made without the caller\'s signing options (sign(..) or other options instead of sign_with_options(.., options)): '
+                         'a scheme that needs them cannot produce this signature' % b.name, key='C09.1|options|' + path)
+            else:
+                ctx.ok('C09.1', ctx.site(b, msgs[0][0]), 'every signature of %s is made with the caller\'s options (%d sign_with_options calls)' % (b.name, len(msgs)))
         rt = strip_sites(tb.return_term())
         # every exit returns add_assertion(self, 'signed', <signature object>) (one exit, or an early return for the plain form)
         tops = [m_call(a, name='add_assertion', self_suffix='Envelope') for a in phi_alts(rt)]
